@@ -334,12 +334,22 @@ pub fn write_evidence(prop: &str, tier: &str, seed: u64, st: &Stats, distinct: u
         .set(
             "assumptions",
             J::Arr(
-                [
-                    "preemption happens only at hook sites (between interpreter instructions), not inside a single memchr call or bracket test",
-                    "the reference is the same engine run in isolation on fresh objects: defects that are wrong identically in isolation are out of scope (C01-C06 territory)",
-                    "a clean batch is evidence over the sampled worlds and schedules, not proof",
-                    "hook sites are add-only and compile to nothing with the guard off",
-                ]
+                if prop == "C20" {
+                    vec![
+                        "the match reference is find_iter of the same engine (C09/C01 territory cancels out by design)",
+                        "the two cursors may tile the haystack independently or meet exactly; both are accepted, as std's own searchers meet in the middle",
+                        "steps skipped inside std's provided methods (next_match, next_reject, ...) are not observable; a None from them counts the rest as covered",
+                        "a clean batch is evidence over the sampled worlds and interleavings, not proof",
+                    ]
+                } else {
+                    vec![
+                        "the baton scheduler preempts only at hook sites (between interpreter instructions); code between two sites is interleaved only by the Miri stratum",
+                        "the references are the same engine run in isolation (fresh objects; in sampled worlds a pristine forked process): defects that are wrong identically in isolation are out of scope (C01-C06 territory)",
+                        "a search unwound by the harness (cancel / fuel) cannot happen in real use; a PoisonError panic after such an unwind is counted, not reported",
+                        "a clean batch is evidence over the sampled worlds and schedules, not proof",
+                        "hook sites are add-only and compile to nothing with the guard off",
+                    ]
+                }
                 .iter()
                 .map(|s| J::s(s))
                 .collect(),
